@@ -290,3 +290,99 @@ def read_tpf(text):
         a, _, b = coords.partition("-")
         cur[1].append(["F", name, int(a), int(b), {"PLUS": 1, "MINUS": -1, "UNKNOWN": 0}[f[3]]])
     return header, scaffolds
+
+
+# --------------------------------------------------------------------------
+# FASTA reference reader and "apply AGP to FASTA" (C03, C04, C13, C14, C15)
+
+_COMP_PAIRS = [
+    ("A", "T"), ("C", "G"), ("G", "C"), ("T", "A"),
+    ("R", "Y"), ("Y", "R"), ("M", "K"), ("K", "M"),
+    ("S", "S"), ("W", "W"), ("H", "D"), ("D", "H"),
+    ("B", "V"), ("V", "B"), ("N", "N"),
+]
+COMPLEMENT = {}
+for _a, _b in _COMP_PAIRS:
+    COMPLEMENT[ord(_a)] = ord(_b)
+    COMPLEMENT[ord(_a.lower())] = ord(_b.lower())
+
+
+def revcomp(seq: bytes) -> bytes:
+    return bytes(COMPLEMENT.get(c, c) for c in reversed(seq))
+
+
+def read_fasta(data: bytes):
+    """
+    Split-on-header reference reader. Returns a list of dicts:
+    name, seq (bytes), offset (byte offset of first residue), width (residues on the first
+    sequence line), linebytes (bytes of the first sequence line incl. terminator, None if that
+    line is unterminated), n_lines.
+    """
+    records = []
+    pos = 0
+    n = len(data)
+    cur = None
+    while pos < n:
+        nl = data.find(b"\n", pos)
+        end = n if nl < 0 else nl + 1
+        line = data[pos:end]
+        if line[:1] == b">":
+            toks = line[1:].split()
+            cur = {"name": toks[0].decode() if toks else "", "seq": bytearray(), "offset": end, "width": 0,
+                   "linebytes": None, "n_lines": 0}
+            records.append(cur)
+        elif cur is not None:
+            body = line
+            terminated = body.endswith(b"\n")
+            if terminated:
+                body = body[:-1]
+                if body.endswith(b"\r"):
+                    body = body[:-1]
+            if cur["n_lines"] == 0:
+                cur["width"] = len(body)
+                cur["linebytes"] = len(line) if terminated else None
+            cur["n_lines"] += 1
+            cur["seq"] += body
+        pos = end
+    for r in records:
+        r["seq"] = bytes(r["seq"])
+    return records
+
+
+def acgt_runs(seq: bytes):
+    """Derived assembly of one record as plain rows (C04): maximal ACGT runs -> fragments, other runs -> gaps."""
+    rows = []
+    i = 0
+    n = len(seq)
+    good = b"ACGTacgt"
+    while i < n:
+        j = i
+        is_seq = seq[i] in good
+        while j < n and (seq[j] in good) == is_seq:
+            j += 1
+        rows.append((is_seq, i + 1, j))
+        i = j
+    return rows
+
+
+def wrap(seq: bytes, width: int) -> bytes:
+    return b"".join(seq[i : i + width] + b"\n" for i in range(0, len(seq), width))
+
+
+def apply_agp_to_fasta(seqs: dict, scaffolds, width=60) -> bytes:
+    """
+    seqs: name -> bytes.  scaffolds: plain [[name, rows]].  '-' rows reverse-complemented with
+    the hand-typed table above, '?' (0) rows forward as AGP specifies, gaps as N.
+    """
+    out = []
+    for name, rows in scaffolds:
+        out.append(b">" + name.encode() + b"\n")
+        parts = []
+        for r in rows:
+            if r[0] == "G":
+                parts.append(b"N" * r[1])
+            else:
+                piece = seqs[r[1]][r[2] - 1 : r[3]]
+                parts.append(revcomp(piece) if r[4] == -1 else piece)
+        out.append(wrap(b"".join(parts), width))
+    return b"".join(out)
